@@ -92,6 +92,9 @@ func (Engine) RunOne(t *core.Tape, prop, tier string, info *core.RunInfo) *core.
 	th := t.Range("cfg", 2, n)
 	useRabin := t.Intn("cfg", 2) == 1
 	msg := t.Bytes("cfg", t.Intn("cfg", 65))
+	if t.Bool("cfg.long", 150) {
+		msg = t.Bytes("cfg", []int{63, 64, 65, 127, 128, 129, 136, 255, 256, 300}[t.Intn("cfg.long", 10)])
+	}
 	honestClass := t.Bool("cfg.class", 120) // separate fault-free class: no fault kind enabled at all
 	cfg := kit.DrawNetCfg(t, true)
 	if honestClass {
